@@ -365,6 +365,10 @@ class XEval:
             return self.lift(v)
         if isinstance(e, ast.Attribute):
             base = self.ev(e.value, env, f)
+            if base[0] == "rec":
+                if e.attr in base[1]:
+                    return base[1][e.attr]
+                raise AnalysisError(f"XFIELD-1: record has no field {e.attr}")
             if base[0] == "self" and e.attr == "context":
                 return ("ctxdict",)
             if base[0] == "proto":
@@ -479,6 +483,15 @@ class XEval:
                 self.apply_validator(fv[1], args[0])
                 return args[0]
             raise AnalysisError(f"XFIELD-1: call of `{norm(fn)[:50]}` result not modelled in {f.fq}")
+        if isinstance(fn, (ast.Name, ast.Attribute)):
+            # a NamedTuple / dataclass carrying intermediate values
+            dcls = I.prog.resolve_expr(f.module, fn)
+            if dcls is not None and dcls.kind == "class":
+                flds = I.record_fields(dcls.obj)
+                if flds is not None and len(args) <= len(flds) and all(k in flds for k in kwargs):
+                    rec = dict(zip(flds, args))
+                    rec.update(kwargs)
+                    return ("rec", rec)
         if isinstance(fn, ast.Name):
             if fn.id == "len" and len(args) == 1:
                 a0 = args[0]
